@@ -2,7 +2,8 @@
 
 The document is 7 disjoint directed triangles of blank nodes (21 triples).
 rdflib.compare.isomorphic() on two fresh parses of it does not come back in any
-reasonable time (6 triangles: ~2 minutes, 7: ~1 hour, 8: days) - the time grows
+reasonable time (one canonicalisation: 4 triangles 0.65 s, 5: 5.8 s, 6: 117 s,
+7: not finished after 50 minutes) - the time grows
 super-exponentially with the number of triangles, although the graph is trivially
 symmetric.  The demo gives the comparison 60 seconds.
 """
